@@ -606,4 +606,54 @@ example : ∃ fuel₀, ∀ fuel, fuel₀ ≤ fuel →
       | 0, ht, hv => cases ht; cases hv; decide⟩
     (by decide) (by decide) 60 (by decide)
 
+/-! ## Array reads and calls inside expressions
+
+  The expressions of assignments, initialisers, expression statements and `return` may read array elements and
+  call functions (`CSem2.Expr3`: `a[i]` and `f(args)` with pure index / arguments, nested freely under casts,
+  unary minus, binary operators, `&&`, `||`, `?:` — except an array read inside the first operand of `?:`,
+  which `condexpr` would constant-fold).  A callee cannot touch the objects of its caller, so evaluation
+  stays free of side effects (`CSem2.evalE3` with the function `callOf` for the calls). -/
+
+/-- `int fact(int n) { if (n <= 0) return 1; return n * fact(n - 1); }` -/
+def exFact : CSem2.Func :=
+  { name := "fact", ret := .int, params := [.int], locals := [],
+    body := .seq (.ite (.bin .le .int (.param .int 0) (.const .int 0)) (.ret (.const .int 1)))
+      (.ret (.bin .mul .int (.param .int 0)
+        (.call .int "fact" [.bin .sub .int (.param .int 0) (.const .int 1)]))) }
+example : CSem3.wtP [exFact] = true := by decide
+example : CSem3.runP true 40 [exFact] "fact" [5] = some 120 := by decide
+/-- 13! does not fit `int`: undefined -/
+example : CSem3.runP true 60 [exFact] "fact" [13] = none := by decide
+
+/-- the theorem applied: the IL of `fact`, run on 5, returns 120 -/
+example : ∃ fuel₀, ∀ fuel, fuel₀ ≤ fuel →
+    runFunc (Prog.ofModule ⟨((emitProg true 0 [exFact]).map Def.func).toArray⟩) noExt "fact"
+      (argsOf exFact.params [5]) fuel = ⟨#[], .ret (.scalar ⟨.w, 120⟩)⟩ := by
+  have hval : (argOf exFact.ret 120).2 = ⟨.w, 120⟩ := by decide
+  rw [← hval]
+  exact lower3_correct_exact true 0 [exFact] "fact" exFact [5] 120 noExt (by decide) rfl
+    ⟨rfl, by
+      intro i t v ht hv
+      match i, ht, hv with
+      | 0, ht, hv => cases ht; cases hv; decide⟩
+    1 (by decide) (by decide) 40 (by decide) (by decide)
+
+/-- `int sum(int n) { int a[3]; int s; a[0] = n; a[1] = 2; a[2] = 3; s = a[0] * a[1] + a[n & 1]; return s; }` -/
+def ex11 : CSem2.Func :=
+  { name := "sum", ret := .int, params := [.int], locals := [.int, .int], lcnts := [3, 1],
+    body :=
+      .seq (.adecl 1 .int 3 3)
+      (.seq (.decl 2 .int none)
+      (.seq (.astore 1 .int 3 3 (.const .int 0) (.param .int 0))
+      (.seq (.astore 1 .int 3 3 (.const .int 1) (.const .int 2))
+      (.seq (.astore 1 .int 3 3 (.const .int 2) (.const .int 3))
+      (.seq (.assign 2 .int (.bin .add .int
+          (.bin .mul .int (.idx .int 1 3 3 (.const .int 0)) (.idx .int 1 3 3 (.const .int 1)))
+          (.idx .int 1 3 3 (.bin .band .int (.param .int 0) (.const .int 1)))))
+        (.ret (.param .int 2))))))) }
+example : CSem2.WT ex11 := by decide
+/-- 7·2 + a[1] -/
+example : CSem2.runC true 30 ex11 [7] = some 16 := by decide
+example : CSem2.runC true 30 ex11 [4] = some 12 := by decide
+
 end CprocVerif.C01
